@@ -1,6 +1,6 @@
 //! C03 / C10 ops: signature-hash preimage (FORKID and legacy), code-separator removal, sign + verify.
 use crate::util::*;
-use bsv::{PrivateKey, PublicKey, Script, SigHash, Signature, SigningHash, Transaction, ECDSA};
+use bsv::{PrivateKey, PublicKey, Script, SigHash, Signature, SigningHash, Transaction, TxIn, TxOut, ECDSA};
 use std::convert::TryFrom;
 
 fn flag_of(n: u64) -> Option<SigHash> {
@@ -31,6 +31,127 @@ pub fn run(op: &str, args: &[String]) -> Option<String> {
             };
             match tx.sighash_preimage(flag, idx as usize, &sub, value) {
                 Ok(p) => format!("OK:{}", show_bytes(&p)),
+                Err(_) => "ERR".into(),
+            }
+        }
+        // tx.sighash_ann: the same call on an object that carries state the preimage must not depend on: optional
+        // annotations (satoshis, locking script) on inputs, obtained directly / through clone / JSON / CBOR / hex /
+        // the construction API.  args: tx, idx, flag, subscript, value, annotations "k,sat|-,lock|-/..." or "-", route
+        "tx.sighash_ann" => {
+            let (txb, idx, fl, subb, value) = match (arg_bytes(args, 0), arg_u64(args, 1), arg_u64(args, 2), arg_bytes(args, 3), arg_u64(args, 4)) {
+                (Some(a), Some(b), Some(c), Some(d), Some(e)) => (a, b, c, d, e),
+                _ => return Some("BADARG".into()),
+            };
+            let (ann, route) = match (args.get(5), args.get(6)) {
+                (Some(a), Some(r)) if args.len() == 7 => (a.clone(), r.clone()),
+                _ => return Some("BADARG".into()),
+            };
+            if !["d", "c", "j", "b", "a", "h"].contains(&route.as_str()) {
+                return Some("BADARG".into());
+            }
+            let flag = match flag_of(fl) {
+                Some(f) => f,
+                None => return Some("BADARG".into()),
+            };
+            let mut anns: Vec<(usize, Option<u64>, Option<Vec<u8>>)> = Vec::new();
+            if ann != "-" {
+                for e in ann.split('/') {
+                    let f: Vec<&str> = e.split(',').collect();
+                    if f.len() != 3 {
+                        return Some("BADARG".into());
+                    }
+                    let k: usize = match f[0].parse() {
+                        Ok(k) => k,
+                        Err(_) => return Some("BADARG".into()),
+                    };
+                    let sat = if f[1] == "-" {
+                        None
+                    } else {
+                        match f[1].parse::<u64>() {
+                            Ok(v) => Some(v),
+                            Err(_) => return Some("BADARG".into()),
+                        }
+                    };
+                    let lock = if f[2] == "-" {
+                        None
+                    } else {
+                        match expand(f[2]) {
+                            Some(b) => Some(b),
+                            None => return Some("BADARG".into()),
+                        }
+                    };
+                    anns.push((k, sat, lock));
+                }
+            }
+            let mut tx = match Transaction::from_bytes(&txb) {
+                Ok(t) => t,
+                Err(_) => return Some("ERR".into()),
+            };
+            let sub = match Script::from_bytes(&subb) {
+                Ok(s) => s,
+                Err(_) => return Some("ERR".into()),
+            };
+            for (k, sat, lock) in &anns {
+                let mut i = match tx.get_input(*k) {
+                    Some(i) => i,
+                    None => return Some("BADARG".into()),
+                };
+                if let Some(v) = sat {
+                    i.set_satoshis(*v);
+                }
+                if let Some(l) = lock {
+                    match Script::from_bytes(l) {
+                        Ok(s) => i.set_locking_script(&s),
+                        Err(_) => return Some("ERR".into()),
+                    }
+                }
+                tx.set_input(*k, &i);
+            }
+            let routed = match route.as_str() {
+                "d" => Ok(tx),
+                "c" => Ok(tx.clone()),
+                "j" => tx.to_json_string().and_then(|j| Transaction::from_json_string(&j)),
+                "b" => tx.to_compact_bytes().and_then(|b| Transaction::from_compact_bytes(&b)),
+                "h" => tx.to_hex().and_then(|h| Transaction::from_hex(&h)),
+                _ => {
+                    let mut t = Transaction::new(tx.get_version(), tx.get_n_locktime());
+                    for k in 0..tx.get_ninputs() {
+                        let i = tx.get_input(k).unwrap();
+                        let mut n = TxIn::new(&i.get_prev_tx_id(None), i.get_vout(), &i.get_unlocking_script(), Some(i.get_sequence()));
+                        if let Some(v) = i.get_satoshis() {
+                            n.set_satoshis(v);
+                        }
+                        if let Some(l) = i.get_locking_script() {
+                            n.set_locking_script(&l);
+                        }
+                        t.add_input(&n);
+                    }
+                    for k in 0..tx.get_noutputs() {
+                        let o = tx.get_output(k).unwrap();
+                        t.add_output(&TxOut::new(o.get_satoshis(), &o.get_script_pub_key()));
+                    }
+                    Ok(t)
+                }
+            };
+            let mut tx = match routed {
+                Ok(t) => t,
+                Err(_) => return Some("ERR".into()),
+            };
+            let mut tx2 = tx.clone();
+            match tx.sighash_preimage(flag, idx as usize, &sub, value) {
+                Ok(p) => {
+                    // Transaction::sign on the same object must sign this very buffer
+                    let sk = PrivateKey::from_bytes(&[0x11u8; 32]).unwrap();
+                    let pk = PublicKey::from_private_key(&sk);
+                    let ok = match tx2.sign(&sk, flag, idx as usize, &sub, value).and_then(|s| s.to_bytes()) {
+                        Ok(sb) if sb.len() > 1 => match Signature::from_der(&sb[..sb.len() - 1]) {
+                            Ok(s) => ECDSA::verify_digest(&p, &pk, &s, SigningHash::Sha256d).unwrap_or(false),
+                            Err(_) => false,
+                        },
+                        _ => false,
+                    };
+                    format!("OK:{};{}", show_bytes(&p), ok as u8)
+                }
                 Err(_) => "ERR".into(),
             }
         }
